@@ -1,4 +1,389 @@
-//! C26 (placeholder until StructCodec is bound)
-pub fn run(_args: &vrt::Args) {
-    vrt::die("codec: not built yet")
+//! C26 — cells of `StructCodec.tla` into `Machine::serialize_struct` / `deserialize_struct`.
+//!
+//! case (a TLC REPLAY line): `{"sc":[type..], "v":[value..], "t":[token..], "c":class, "at":pos,
+//! "e":[status(, value)]}`.  Types, values and tokens are the spec's tag-first tuples.
+//!
+//! * `roundtrip`: the real serializer's bytes are compared with the rendering of the spec's
+//!   tokens (drift if different) and must deserialize to exactly the value (violation if not);
+//! * classes the property lists (truncation, trailing byte, option/result tags 2 and 255, enum
+//!   value outside the definition, invalid UTF-8 / NUL, id length 31/33/0): the rendered bytes
+//!   must be rejected (violation if accepted); the error kind is compared with the spec's (drift);
+//! * `random`: seeded random byte strings and corruptions of the valid encoding: no panic, and
+//!   whatever decodes must itself round-trip;
+//! * a panic anywhere is a violation.
+use std::collections::BTreeMap;
+
+use aranya_policy_vm::{
+    BaseId, EnumDef, Field, Machine, ResultTypeKind, Struct, StructDef, TypeKind, Value,
+};
+use vrt::{die, json, Args, Rng, Value as J, J as _};
+
+use crate::val::{conc_int, ident, text};
+
+const REQUIRED: &[&str] = &[
+    "trunc", "trunc-mid", "trailing", "otag2", "otag255", "rtag2", "rtag255", "enum-out", "utf8",
+    "nul", "utf8-cut", "idlen31", "idlen33", "idlen0",
+];
+
+struct World {
+    machine: Machine,
+    names: BTreeMap<String, String>, // inner-struct type term -> struct name
+}
+
+fn tag(v: &J) -> &str {
+    v.get(0).and_then(J::as_str).unwrap_or_else(|| die(&format!("term without tag: {v}")))
+}
+
+impl World {
+    fn type_kind(&mut self, t: &J) -> TypeKind {
+        match tag(t) {
+            "int" => TypeKind::Int,
+            "bool" => TypeKind::Bool,
+            "string" => TypeKind::String,
+            "bytes" => TypeKind::Bytes,
+            "id" => TypeKind::Id,
+            "enum" => TypeKind::Enum(ident("E")),
+            "unit" => TypeKind::Unit,
+            "opt" => TypeKind::Optional(Box::new(self.type_kind(&t[1]))),
+            "res" => TypeKind::Result(Box::new(ResultTypeKind {
+                ok: self.type_kind(&t[1]),
+                err: self.type_kind(&t[2]),
+            })),
+            "struct" => {
+                let key = t.to_string();
+                if let Some(n) = self.names.get(&key) {
+                    return TypeKind::Struct(ident(n));
+                }
+                let inner = self.type_kind(&t[1]);
+                let name = format!("In{}", self.names.len());
+                self.names.insert(key, name.clone());
+                self.machine.struct_defs.insert(StructDef {
+                    name: ident(&name),
+                    items: vec![
+                        Field { name: ident("p"), ty: inner },
+                        Field { name: ident("q"), ty: TypeKind::Bool },
+                    ],
+                });
+                TypeKind::Struct(ident(&name))
+            }
+            x => die(&format!("unknown type {x}")),
+        }
+    }
+
+    fn value(&self, t: &J, v: &J) -> Value {
+        match tag(t) {
+            "int" => Value::Int(conc_int(v[1].as_i64().unwrap_or_else(|| die("int")))),
+            "bool" => Value::Bool(v[1].as_bool().unwrap_or_else(|| die("bool"))),
+            "string" => Value::String(text(
+                std::str::from_utf8(&bytes_of(&v[1])).unwrap_or_else(|_| die("spec text not utf-8")),
+            )),
+            "bytes" => Value::Bytes(bytes_of(&v[1])),
+            "id" => Value::Id(id_bytes(v[1].as_u64().unwrap_or_else(|| die("id")))),
+            "enum" => Value::Enum(ident("E"), v[1].as_i64().unwrap_or_else(|| die("enum"))),
+            "unit" => Value::Unit,
+            "opt" => Value::Option(v.get(1).map(|x| Box::new(self.value(&t[1], x)))),
+            "res" => {
+                if v[1].as_bool().unwrap_or_else(|| die("res")) {
+                    Value::Result(Ok(Box::new(self.value(&t[1], &v[2]))))
+                } else {
+                    Value::Result(Err(Box::new(self.value(&t[2], &v[2]))))
+                }
+            }
+            "struct" => {
+                let name = self.names.get(&t.to_string()).unwrap_or_else(|| die("struct name"));
+                Value::Struct(Struct::new(
+                    ident(name),
+                    [(ident("p"), self.value(&t[1], &v[1])), (ident("q"), self.value(&json!(["bool"]), &v[2]))],
+                ))
+            }
+            x => die(&format!("unknown type {x}")),
+        }
+    }
+}
+
+fn bytes_of(v: &J) -> Vec<u8> {
+    v.as_array()
+        .unwrap_or_else(|| die("bytes not array"))
+        .iter()
+        .map(|b| b.as_u64().unwrap_or_else(|| die("byte")) as u8)
+        .collect()
+}
+
+fn id_raw(k: u64, n: usize) -> Vec<u8> {
+    (0..n).map(|i| (k as u8).wrapping_mul(17).wrapping_add(i as u8) | 0x80).collect()
+}
+
+fn id_bytes(k: u64) -> BaseId {
+    let mut b = [0u8; 32];
+    b.copy_from_slice(&id_raw(k, 32));
+    BaseId::from_bytes(b)
+}
+
+fn varint(mut x: u64, out: &mut Vec<u8>) {
+    loop {
+        let b = (x & 0x7f) as u8;
+        x >>= 7;
+        if x == 0 {
+            out.push(b);
+            return;
+        }
+        out.push(b | 0x80);
+    }
+}
+
+fn zigzag(v: i64) -> u64 {
+    ((v << 1) ^ (v >> 63)) as u64
+}
+
+/// Bytes of one token.
+fn render_tok(t: &J, out: &mut Vec<u8>) {
+    match tag(t) {
+        "zz" | "ezz" => varint(zigzag(conc_int(t[1].as_i64().unwrap_or_else(|| die("zz")))), out),
+        "bool" | "idlen" | "otag" | "rtag" | "extra" => out.push(t[1].as_u64().unwrap_or_else(|| die("byte tok")) as u8),
+        "len" => varint(t[1].as_u64().unwrap_or_else(|| die("len")), out),
+        "text" | "raw" => out.extend(bytes_of(&t[1])),
+        "idraw" => out.extend(id_raw(
+            t[1].as_u64().unwrap_or_else(|| die("idraw")),
+            t[2].as_u64().unwrap_or_else(|| die("idraw n")) as usize,
+        )),
+        "cut" => {
+            let mut b = Vec::new();
+            render_tok(&t[1], &mut b);
+            b.pop();
+            out.extend(b);
+        }
+        x => die(&format!("token {x} cannot be rendered")),
+    }
+}
+
+fn render(toks: &[J]) -> Vec<u8> {
+    let mut out = Vec::new();
+    for t in toks {
+        render_tok(t, &mut out);
+    }
+    out
+}
+
+fn err_name(e: &impl std::fmt::Debug) -> String {
+    let d = format!("{e:?}");
+    d.split(|c: char| !c.is_alphanumeric()).next().unwrap_or("?").to_string()
+}
+
+/// deserialize under catch; Ok(Ok(v)) / Ok(Err(kind)) / Err(panic)
+fn de(m: &Machine, bytes: &[u8]) -> Result<Result<Struct, String>, String> {
+    vrt::catch_any(|| m.deserialize_struct(ident("Top"), bytes).map_err(|e| {
+        let _ = e.to_string();
+        err_name(&e)
+    }))
+}
+
+pub fn run(args: &Args) {
+    let mut out = args.out();
+    let nrand = args.opt_u64("random", 24) as usize;
+    for (i, case) in args.read_input().iter().enumerate() {
+        let mut w = World { machine: Machine::new([]), names: BTreeMap::new() };
+        w.machine.enum_defs.insert(EnumDef {
+            name: ident("E"),
+            variants: vec![(ident("A"), 0), (ident("B"), 1)],
+        });
+        let tys = case.a("sc");
+        let items: Vec<Field> = tys
+            .iter()
+            .enumerate()
+            .map(|(k, t)| Field { name: ident(&format!("f{}", k + 1)), ty: w.type_kind(t) })
+            .collect();
+        w.machine.struct_defs.insert(StructDef { name: ident("Top"), items });
+        let vals = case.a("v");
+        let top = Struct::new(
+            ident("Top"),
+            tys.iter().zip(vals).enumerate().map(|(k, (t, v))| (ident(&format!("f{}", k + 1)), w.value(t, v))),
+        );
+        let cls = case.s("c");
+        let toks = case.a("t");
+        let exp = case.a("e");
+        let exp_st = exp.first().and_then(J::as_str).unwrap_or("?");
+        let m = &w.machine;
+        let mut drift = 0u64;
+        let mut notes: Vec<String> = Vec::new();
+
+        // the valid encoding, always needed
+        let ser = match vrt::catch_any(|| m.serialize_struct(&top)) {
+            Err(p) => {
+                out.fail(i, 0, "C26:panic:serialize", &format!("serialize_struct panicked: {p}"), json!({"panic": p}));
+                continue;
+            }
+            Ok(Err(e)) => {
+                out.fail(i, 0, "C26:roundtrip:serialize-error",
+                    &format!("a value matching its schema could not be serialized: {e}"), json!({"err": e.to_string()}));
+                continue;
+            }
+            Ok(Ok(b)) => b,
+        };
+
+        match cls {
+            "roundtrip" => {
+                let spec_bytes = render(toks);
+                if spec_bytes != ser {
+                    drift += 1;
+                    notes.push(format!("wire bytes differ from the token grammar: {ser:02x?} vs {spec_bytes:02x?}"));
+                }
+                match de(m, &ser) {
+                    Err(p) => {
+                        out.fail(i, 1, "C26:panic:roundtrip", &format!("deserialize_struct panicked: {p}"), json!({"panic": p}));
+                        continue;
+                    }
+                    Ok(Err(k)) => {
+                        out.fail(i, 1, "C26:roundtrip:rejected",
+                            &format!("the serialization of a conforming value was rejected ({k})"),
+                            json!({"bytes": ser, "err": k}));
+                        continue;
+                    }
+                    Ok(Ok(back)) => {
+                        if back != top {
+                            out.fail(i, 1, "C26:roundtrip:different",
+                                "deserialize(serialize(v)) != v",
+                                json!({"bytes": ser, "got": format!("{back}"), "want": format!("{top}")}));
+                            continue;
+                        }
+                    }
+                }
+                if exp_st != "ok" {
+                    drift += 1;
+                    notes.push(format!("spec expected {exp_st}"));
+                }
+            }
+            "random" => {
+                let mut rng = Rng::new(args.seed ^ (i as u64).wrapping_mul(0x9E37) ^ case.u("at"));
+                let mut bad: Option<(String, String, Vec<u8>)> = None;
+                for k in 0..nrand {
+                    let bytes: Vec<u8> = if k % 2 == 0 || ser.is_empty() {
+                        let n = rng.below(49) as usize;
+                        let mut b = vec![0u8; n];
+                        rng.fill(&mut b);
+                        // bias towards small tag-like bytes so deep schemas are entered
+                        for x in b.iter_mut() {
+                            if rng.chance(1, 3) {
+                                *x %= 3;
+                            }
+                        }
+                        b
+                    } else {
+                        let mut b = ser.clone();
+                        for _ in 0..=rng.below(3) {
+                            match rng.below(4) {
+                                0 if !b.is_empty() => {
+                                    let p = rng.below(b.len() as u64) as usize;
+                                    b[p] ^= 1 << rng.below(8);
+                                }
+                                1 if !b.is_empty() => {
+                                    let p = rng.below(b.len() as u64) as usize;
+                                    b[p] = rng.next_u64() as u8;
+                                }
+                                2 => {
+                                    let p = rng.below(b.len() as u64 + 1) as usize;
+                                    b.insert(p, rng.next_u64() as u8);
+                                }
+                                _ if !b.is_empty() => {
+                                    let p = rng.below(b.len() as u64) as usize;
+                                    b.remove(p);
+                                }
+                                _ => {}
+                            }
+                        }
+                        b
+                    };
+                    match de(m, &bytes) {
+                        Err(p) => {
+                            bad = Some(("C26:panic:random".into(), format!("deserialize_struct panicked on arbitrary bytes: {p}"), bytes));
+                            break;
+                        }
+                        Ok(Err(_)) => {}
+                        Ok(Ok(v)) => {
+                            // whatever is accepted is a conforming value and must round-trip
+                            let again = vrt::catch_any(|| {
+                                m.serialize_struct(&v).ok().and_then(|b| m.deserialize_struct(ident("Top"), &b).ok())
+                            });
+                            match again {
+                                Err(p) => {
+                                    bad = Some(("C26:panic:random".into(), format!("panic re-encoding a decoded value: {p}"), bytes));
+                                    break;
+                                }
+                                Ok(Some(v2)) if v2 == v => {}
+                                Ok(_) => {
+                                    bad = Some(("C26:roundtrip:decoded".into(),
+                                        "a value accepted by deserialize_struct does not round-trip".into(), bytes));
+                                    break;
+                                }
+                            }
+                        }
+                    }
+                }
+                if let Some((key, msg, bytes)) = bad {
+                    out.fail(i, 2, &key, &msg, json!({"bytes": bytes}));
+                    continue;
+                }
+            }
+            _ => {
+                // a mutation class: every concretisation of the cell must be rejected
+                let mut inputs = vec![render(toks)];
+                if cls == "trunc-mid" {
+                    // every interior cut point of the cut token
+                    let at = case.u("at") as usize;
+                    let prefix = render(&toks[..at - 1]);
+                    let mut full = Vec::new();
+                    render_tok(&toks[at - 1][1], &mut full);
+                    for j in 1..full.len() {
+                        let mut b = prefix.clone();
+                        b.extend(&full[..j]);
+                        inputs.push(b);
+                    }
+                }
+                if cls == "trailing" {
+                    for extra in [0xffu8, 0x01, 0x80] {
+                        let mut b = ser.clone();
+                        b.push(extra);
+                        inputs.push(b);
+                    }
+                }
+                let required = REQUIRED.contains(&cls);
+                let mut failed = false;
+                for bytes in &inputs {
+                    match de(m, bytes) {
+                        Err(p) => {
+                            out.fail(i, 2, &format!("C26:panic:{cls}"), &format!("deserialize_struct panicked: {p}"),
+                                json!({"bytes": bytes, "panic": p}));
+                            failed = true;
+                            break;
+                        }
+                        Ok(Ok(v)) => {
+                            if required {
+                                out.fail(i, 2, &format!("C26:accepted:{cls}"),
+                                    &format!("deserialize_struct accepted input of class `{cls}` (as {v})"),
+                                    json!({"bytes": bytes, "valid_encoding": ser, "decoded": format!("{v}")}));
+                                failed = true;
+                                break;
+                            }
+                            drift += 1;
+                            notes.push(format!("class {cls} accepted"));
+                        }
+                        Ok(Err(k)) => {
+                            if k != exp_st {
+                                drift += 1;
+                                notes.push(format!("error kind {k}, spec {exp_st}"));
+                            }
+                        }
+                    }
+                }
+                if failed {
+                    continue;
+                }
+            }
+        }
+        if args.opt_bool("strict") && drift > 0 {
+            out.fail(i, 0, "C26:selftest-mismatch", &notes.join("; "), json!({}));
+        } else {
+            out.emit(json!({"i": i, "ok": true, "step": -1, "drift": drift, "obs": {"notes": notes, "len": ser.len()}}));
+        }
+    }
+    out.finish();
 }
